@@ -48,7 +48,6 @@ Section Inv.
         root) the backup holds a copy at the same path *)
     inv_some : forall p fi, w_infos w !! p = Some (Some fi) ->
                  exists n0, B0 !! p = Some n0 /\ info_matches fi n0 /\
-                            fi_mt fi = m_mt (node_meta n0) /\
                             (p = s_root \/ exists nk, Vk w !! p = Some nk /\ copy_of n0 nk);
     (** tracked paths are resolved, closed under ancestors *)
     inv_closed : forall p, w_infos w !! p <> None ->
